@@ -202,7 +202,7 @@ def run(c, a):
         if rc != 0 and not (evs and proxy_panicked(outp + ".log")):
             raise Broken("extra probes failed rc=%s: %s" % (rc, out[-1500:]))
         extra += evs
-    if sum(1 for e in extra if e["ev"] == "Concurrent") < 10 or sum(1 for e in extra if e["ev"] == "ServePanic") < 4:
+    if sum(1 for e in extra if e["ev"] == "Concurrent") < 4 or sum(1 for e in extra if e["ev"] == "ServePanic") < 4:
         raise Broken("extra probes incomplete: %d events" % len(extra))
     for e in extra:
         e["id"] += 1000000
